@@ -1,15 +1,17 @@
 PROP = dict(
     lean_modules=["DefraModel.Props.C07"],
     props_modules=["DefraModel.Props.C07"],
-    engines=[dict(name="query", drv="query", args=["twin"], timeout=3600)],
-    oracle_tags=["index-changes-result", "index-changes-order", "index-changes-aggregate", "index-panic-or-hang", "panic", "multi-key-order"],
+    engines=[dict(name="query", drv="query", args=["twin"], timeout=3600), dict(name="crdt", drv="crdt")],
+    oracle_tags=["index-changes-result", "index-changes-order", "index-changes-aggregate", "index-panic-or-hang", "panic", "multi-key-order", "index-after-merge"],
     rule=("twin databases with identical documents, one of them with 1-3 generated secondary indexes (single-field and composite, ascending/descending, on String/Int/Float/Boolean columns, created before or "
           "after the data), a generated history of updates and deletes applied to both; then (a) the raw index entries of the real store are compared byte for byte with the entries the model derives from the live "
           "documents through the C17 key encoders, (b) generated queries (filters incl. _in/_nin/_or/_not and null operands, 1-3 ordering keys, limit/offset, aggregates) are run on both twins: same multiset of documents, "
-          "same sequence of first sort keys, same aggregates; a case is one (collection, index set, query); distinct = distinct query lines per collection"),
+          "same sequence of first sort keys, same aggregates; a case is one (collection, index set, query); distinct = distinct query lines per collection; "
+          "(c) the crdt engine's replicas carry indexes on name and age: at every quiescent point of its generated multi-replica histories (remote merges, concurrent writes, deletes) every index-backed equality lookup "
+          "(every value present, and null) is compared with the documents holding that value"),
     assumptions=[
         "limit/offset without an ordering that makes the sequence unique select an implementation-defined slice: such queries are compared through the ordered-sequence oracle only",
-        "unique indexes, array and JSON fields, relations and merged remote commits are not generated by this engine yet (unique-index rejection is exercised by the C05 fault engine's priors only)",
+        "unique indexes, array and JSON fields and relations are not generated yet; merged remote commits are covered by the crdt engine's lookups only (unique-index rejection is exercised by the C05 fault engine's priors only)",
         "the theorems cover the candidate interval of a condition on the first indexed field of non-JSON kinds; value matchers on further composite fields only remove candidates, the complete filter is re-applied in any case",
     ],
     trusted_base=["harness/query (twin mode), Driver/Query.lean"],
